@@ -223,6 +223,12 @@ public:
         if (ec == asio::error::no_recovery)
             _svc.cancel();
 
+        if (ec == asio::error::operation_aborted)
+            // nothing will be written anymore: requests queued while
+            // this write was in flight must not be left behind
+            // (done first: the service may not outlive the completions below)
+            cancel();
+
         // errors, if any, are propagated to ops
         for (auto& op : write_queue)
             op.complete(ec);
